@@ -1772,7 +1772,7 @@ impl D {
             }
         }
         // 3. random sessions
-        let (n, nops) = if miri { (40, 12) } else if thorough { (60000, 30) } else { (1500, 24) };
+        let (n, nops) = if miri { (30, 12) } else if thorough { (60000, 30) } else { (1500, 24) };
         for i in 0..n {
             let max_cap = if i % 4 == 0 { 32 } else { 6 };
             let k = 4 + r.below(nops as u64) as usize;
